@@ -24,7 +24,7 @@ from ..core import TranslateError, clist, cnat, cnats, cints, cz, copt, np_seed
 F6_KEY = 'enforce:empty-constrained-row'
 
 IMPORTS = ('From Coq Require Import List ZArith Bool Arith.\n'
-           'Require Import Base.C05_Np Model.C05_BC Gen.C05Gen.')
+           'Require Import Base.C05_Np Model.C05_BC Model.C05_MPC Gen.C05Gen.')
 
 DEFS = r'''
 Definition mk (ip : list Z) (ix : list nat) (d : list Z) : csr Z := {| indptr := ip; indices := ix; data := d |}.
@@ -62,6 +62,14 @@ Definition NoZs : option (list Z) := None.
 Definition RaisesMO : option (list (list (nat * Z)) * option (list Z)) := None.
 Definition RaisesMM : option (list (list (nat * Z)) * list (list (nat * Z))) := None.
 Definition RaisesZs : option (list Z) := None.
+Definition NoRows : option (list (list (nat * Z))) := None.
+Definition densez (k : nat) (M : list (list (nat * Z))) := map (fun r => map (fun j => dense_entry Zops r j) (seq 0 k)) M.
+Definition run_mpc (c : csr Z * list Z * option (list nat) * option (list nat) * option (list (list (nat * Z))) * option (list Z)) :=
+  let '(A, b, Ss, Ms, T, g) := c in
+  let '(B, y, x0, perm) := mpc_call Zops (csr_rows A) b Ss Ms T g in (densez (length B) B, y, x0, perm).
+Definition run_tuple (c : list Z * list nat * list (list (nat * Z)) * list Z * list nat * list Z) :=
+  let '(x, perm, T, g, U, z) := c in gen_expand_tuple Zops x perm (gen_mpc_expand Zops T g U) z.
+Definition eq_mpc := pair_eqb (pair_eqb (pair_eqb zss_eqb zs_eqb) zs_eqb) nats_eqb.
 Definition eq_mo := pair_eqb rows_eqb ozs_eqb.
 Definition eq_mm := pair_eqb rows_eqb rows_eqb.
 Definition eq_cond := pair_eqb (pair_eqb (pair_eqb rows_eqb ozs_eqb) zs_eqb) nats_eqb.
@@ -212,7 +220,7 @@ def run(ctx):
                         'for enforce/penalize; condense needs no such assumption',
                         'index sets are duplicate-free with entries in [0,n) (what DofsView.flatten / np.unique deliver)',
                         'penalize is modelled with the weight w = 1/epsilon; the limit epsilon -> 0 is oracle only',
-                        'mpc is oracle only']
+                        'mpc: S and M duplicate-free and disjoint, T with |S| rows, g of length |S| (what mpc checks or np.setdiff1d assumes)']
     ctx.cov['rule'] = ('random square CSR systems n=1..8 (thorough: ..12): empty rows, explicit zeros, unsorted columns, '
                        'unsymmetric patterns; duplicate-free splits in random order given as I or D, as int32/int64 arrays, '
                        'DofsView or dict of views of a real basis; vector / matrix / absent right-hand sides; overwrite on/off. '
@@ -238,10 +246,10 @@ def run(ctx):
     # 3. correspondence + 4. oracle share the generated cases
     state = {'maxdisc': 0.0, 'pen_maxdisc': 0.0, 'eig_maxdisc': 0.0}
     cases = {k: [] for k in ('enforce', 'enforce_eig', 'condense', 'condense_eig', 'penalize', 'expand', 'expand_eig',
-                             'positions')}
+                             'positions', 'mpc', 'tuple')}
     _gen_random(ctx, cases, state)
     _gen_basis(ctx, cases, state)
-    _oracle_mpc(ctx, state)
+    _oracle_mpc(ctx, state, cases)
     ctx.extra['max_float_discrepancy'] = {'solve_vs_exact(rel)': state['maxdisc'], 'tolerance': 1e-9,
                                           'penalize_vs_condense(rel)': state['pen_maxdisc'], 'penalize_tolerance': 1e-6,
                                           'penalize_zero_diagonal_vs_condense(rel)': state.get('pen0_maxdisc', 0.0),
@@ -256,7 +264,8 @@ def run(ctx):
                 ('penalize', 'run_penalize', '(option_eqb eq_mo)'),
                 ('expand', 'run_expand', 'zs_eqb'),
                 ('expand_eig', 'run_expand_eig', 'zss_eqb'),
-                ('positions', 'run_positions', '(option_eqb zs_eqb)')]
+                ('positions', 'run_positions', '(option_eqb zs_eqb)'),
+                ('mpc', 'run_mpc', 'eq_mpc'), ('tuple', 'run_tuple', 'zs_eqb')]
         # the files of the different functions are independent: evaluate them concurrently
         from concurrent.futures import ThreadPoolExecutor
         with ThreadPoolExecutor(4) as ex:
@@ -647,7 +656,7 @@ def check_eigen_pipeline(ctx, state, n, rng):
 def _gen_random(ctx, cases, state):
     rng = ctx.rng
     nmax = ctx.n(8, 12)
-    N = ctx.n(260, 1000)
+    N = ctx.n(220, 1000)
     # the matrix of finding F6 first (fixed regression corpus), then random
     f6 = ([0, 2, 2, 5, 8], [1, 0, 3, 0, 2, 1, 3, 2], [1, 2, 3, 0, 5, 6, 7, 8])
     for D in ([0, 1, 2], [0, 1], [1, 2], [2, 3], [1], [3, 1, 0]):
@@ -785,8 +794,8 @@ def _gen_basis(ctx, cases, state):
             check_condense_case(ctx, cases, state, n, csr, b, x, S, which, rng, Sarg=Sarg, view_lists=vl)
 
 
-def _oracle_mpc(ctx, state):
-    """mpc is not modelled in Coq: exact oracle.  For the solution x returned by solve(*mpc(...)):
+def _oracle_mpc(ctx, state, cases=None):
+    """mpc: correspondence records for the model plus the exact oracle.  For the solution x returned by solve(*mpc(...)):
     x[S] = T x[M] + g and the rows U, M of A x = b hold; all defaults (T, g, S, M omitted) are exercised; the expansion
     branches of solve_linear / solve_eigen for a tuple I are checked exactly with stub solvers."""
     from skfem.utils import mpc, solve, solve_linear, solve_eigen
@@ -827,6 +836,12 @@ def _oracle_mpc(ctx, state):
         if checksum(A, bb) != before:
             ctx.fail('no_mutation:mpc', 'mpc modified its arguments', rep)
         dB = [[as_int(v) for v in r] for r in B.toarray()]
+        if cases is not None:
+            Tt = 'NoRows' if 'T' not in kw else f'(Some {c_rows(canon_rows(kw["T"]))})'
+            cases['mpc'].append((tup(c_csr(*csr), cints(b), c_onats(S if 'S' in kw else None), c_onats(M if 'M' in kw else None), Tt,
+                                     c_ozs(g if 'g' in kw else None)),
+                                 f'({clist([cints(r) for r in dB])}, {cints(ints(yv))}, {cints(ints(x0))}, {cnats([int(i) for i in perm])})',
+                                 dict(rep, nontrivial=mode != 3)))
         u = frac_solve(dB, ints(yv))
         if [int(i) for i in perm] != U + M + S:
             ctx.fail('mpc:permutation', 'mpc: index bookkeeping (U, M, S) wrong', dict(rep, got=[int(i) for i in perm]))
@@ -856,6 +871,10 @@ def _oracle_mpc(ctx, state):
         exp = [0] * n
         for pos, i in enumerate(U + M + S):
             exp[i] += (z + [sum(T[r][c] * zM[c] for c in range(len(M))) + g[r] for r in range(len(S))])[pos]
+        if cases is not None:
+            Trows = [[(c, T[r][c]) for c in range(len(M)) if T[r][c] != 0] for r in range(len(S))]
+            cases['tuple'].append((tup(cints([0] * n), cnats(U + M + S), c_rows(Trows), cints(g), cnats(U), cints(z)), cints(ints(xl)),
+                                   dict(rep, z=z, nontrivial=mode != 3)))
         if ints(xl) != exp:
             ctx.fail('solve_linear:tuple-expansion', 'solve_linear with a (indices, expansion) tuple does not scatter the expanded vector',
                      dict(rep, z=z, got=ints(xl), expected=exp))
@@ -880,7 +899,7 @@ def replay(ctx, data):
     inp = data.get('input', {})
     ctx.log('replaying', data.get('key'))
     ctx.ensure_static()
-    cases = {k: [] for k in ('enforce', 'enforce_eig', 'condense', 'condense_eig', 'penalize', 'expand', 'expand_eig', 'positions')}
+    cases = {k: [] for k in ('enforce', 'enforce_eig', 'condense', 'condense_eig', 'penalize', 'expand', 'expand_eig', 'positions', 'mpc', 'tuple')}
     state = {'maxdisc': 0.0, 'pen_maxdisc': 0.0, 'eig_maxdisc': 0.0}
     which = 'D' if 'D' in inp else 'I'
     if inp.get('fn') == 'enforce':
